@@ -44,6 +44,15 @@ def gen_case(g):
     maxdim = 3 if fn == "derivative" else (2 if fn == "gradient" else 1)
     poly = g.poly(shape=g.shape(maxdim), maxexp=rng.choice([2, 3, 4]),
                   kind=rng.choice(["int", "int", "float", "complex"]))
+    if poly["kind"] == "int" and fn != "rules" and rng.random() < 0.15:
+        # narrow integer coefficients close to the limits of their type: exponent * coefficient
+        # does not fit the coefficient type (the derivative is formal, not modular)
+        dtype = rng.choice(["int8", "int16", "uint8"])
+        pool = {"int8": [100, -120, 64, 127, -128, 3], "int16": [30000, -32768, 20000, 7],
+                "uint8": [200, 255, 128, 5]}[dtype]
+        poly["dtype"] = dtype
+        poly["coefs"] = [G.nested_map(lambda v: rng.choice(pool) if v else 0, c)
+                         for c in poly["coefs"]]
     names = poly["names"]
     nvars = rng.choice([1, 1, 2, 2, 3])
     dvars = []
